@@ -1126,6 +1126,35 @@ func (c *Ctx) registerZZ(tab map[string]intrinsicFn) {
 		return x
 	}
 	tab[M+"IntIn"] = intIn
+	// Choose: one of finitely many values, selected by a bounded integer symbol, as ONE term (an if-then-else chain)
+	// instead of one path per alternative
+	tab[F+"Choose"] = func(c *Ctx, fn *ssa.Function, a []Value) Value {
+		vals := a[2].(SliceV)
+		if vals.Len == 0 {
+			panic(c.abort("Choose: no alternatives"))
+		}
+		intT := types.Typ[types.Int]
+		name := c.str(a[1])
+		var x *smt.Term
+		if c.E.Concrete != nil {
+			if _, ok := c.E.Concrete[name]; ok {
+				x = c.symOfType(name, intT)
+			} else {
+				x = c.St.BVC(64, 0)
+			}
+		} else {
+			x = c.symOfType(name, intT)
+		}
+		hi := c.St.BVC(64, uint64(vals.Len-1))
+		c.E.SymRanges[name] = [2]int64{0, int64(vals.Len - 1)}
+		c.E.Assumptions[fmt.Sprintf("%s in [0, %d]", name, vals.Len-1)] = true
+		c.doAssume(c.St.And(c.St.BVSLe(c.St.BVC(64, 0), x), c.St.BVSLe(x, hi)))
+		r := vals.B.Load(c, vals.Off).(*smt.Term)
+		for k := 1; k < vals.Len; k++ {
+			r = c.St.Ite(c.St.Eq(x, c.St.BVC(64, uint64(k))), vals.B.Load(c, vals.Off+k).(*smt.Term), r)
+		}
+		return r
+	}
 	tab[M+"Int64In"] = intIn
 	tab[M+"FreshString"] = func(c *Ctx, fn *ssa.Function, a []Value) Value {
 		if c.E.Concrete != nil {
